@@ -51,6 +51,19 @@ def explore(chk):
         rel = rng.random() < 0.8; fit = rng.random() < 0.7
         jobs.append(("relfit", l, w, h, rel, fit,
                      b.add("geo.relfit", core.enc_bool(rel), core.enc_bool(fit), str(w or 0), str(h or 0), geo.enc_layout(l))))
+    # extents that end just inside / on / just outside the 90% and 95% edges (all lengths in %, or px on a 1000 x 1000 frame)
+    for _ in range(150 if chk.tier == "quick" else 4000):
+        x = rng.choice([5, 10, 12.5, 25, 0]); y = rng.choice([5, 10, 20, 0])
+        dx = rng.choice([-0.4, 0, 0.1, 0.25, 0.4, 0.5, 0.6, 1]); dy = rng.choice([-0.4, 0, 0.1, 0.25, 0.4, 0.5, 0.6, 1])
+        px = rng.random() < 0.3
+        def sz_(v):
+            return g.Size(v * 10, g.UnitEnum("px")) if px else g.Size(v, g.UnitEnum("%"))
+        l = g.Layout(origin=g.Point(sz_(x), sz_(y)), extent=g.Stretch(sz_(90 - x + dx), sz_(95 - y + dy)),
+                     padding=None if rng.random() < 0.7 else g.Padding(sz_(1), sz_(1), sz_(2), sz_(2)))
+        w, h = (1000, 1000) if px else rng.choice([(None, None), (640, 360)])
+        rel = True if px else rng.random() < 0.5
+        jobs.append(("relfit", l, w, h, rel, True,
+                     b.add("geo.relfit", core.enc_bool(rel), core.enc_bool(True), str(w or 0), str(h or 0), geo.enc_layout(l))))
     out = b.run() if chk.driver_ok else None
     for job in jobs:
         if job[0] == "pct":
